@@ -636,8 +636,8 @@ AREAS = [
              bind={'context.Buffer[i]': Zb('b')}),
         # body of the length loop: at most 9 digits, len = len * 10 + digit
         dict(name='netstring_len_iter', func='NetString::ReadStringFromStream', file='lib/base/netstring.cpp', props=['C20'], nparams=5,
-             region=(r'if\s*\(\s*i\s*>=\s*9\s*\)', r'\}\s*size_t\s+data_length'),
-             region_exit=True, outputs=['len'],
+             region=(r'for\s*\(\s*i\s*=\s*0\s*;\s*i\s*<\s*header_length\s*&&\s*isdigit\(context\.Buffer\[i\]\)\s*;\s*i\+\+\s*\)\s*\{', r'\}\s*size_t\s+data_length'),
+             region_after=True, region_exit=True, outputs=['len'],
              inputs=[('b', 'Z'), ('i', 'Z'), ('len0', 'Z')], ret='void', rcoq='bool * Z', dummy='(false, 0)',
              strings=dict(string='zbytes', char='Z', lit='%d'),
              abort={r'must not exceed 9': '(true, -4)'}, abort_stmts=[r'^BOOST_THROW_EXCEPTION\('],
